@@ -45,6 +45,37 @@ type xpWorld struct {
 	gacc  *account.Account
 	bks   []keypair.PublicKey
 	nonce uint32
+	ready [][2]*account.Account // funded payer pairs (A, B) not yet used by a scenario
+}
+
+var xpPrices = map[string]uint64{"t1": xpGasPrice + 6, "t2": xpGasPrice + 5, "t3": xpGasPrice + 4, "t4": xpGasPrice + 3, "t6": xpGasPrice + 2, "t5": 100}
+
+const xpDrainAmount = uint64(1000000000)
+
+// payers hands out a fresh funded pair: A holds exactly t1's amount + t1's fee, B plenty.  Pairs are funded in
+// batches (one block of transfers from the genesis holder per batch, gas price 0).
+func (w *xpWorld) payers() [2]*account.Account {
+	if len(w.ready) == 0 {
+		const batch = 24
+		fundA := xpDrainAmount + xpPrices["t1"]*xpGasLimit + xpDrainKeep
+		fundB := uint64(50) * 1000000000
+		var txs []*types.Transaction
+		for i := 0; i < batch; i++ {
+			a, b := account.NewAccount(""), account.NewAccount("")
+			w.nonce += 2
+			txs = append(txs, w.mkTransfer(w.gacc, a.Address, fundA, 0, w.nonce, false), w.mkTransfer(w.gacc, b.Address, fundB, 0, w.nonce+1, false))
+			w.ready = append(w.ready, [2]*account.Account{a, b})
+		}
+		w.saveBlock(txs)
+		last := w.ready[len(w.ready)-1]
+		if w.ongBalance(last[0].Address) != fundA || w.ongBalance(last[1].Address) != fundB {
+			panic(fmt.Sprintf("funding block did not execute as expected: A=%d (want %d) B=%d (want %d)",
+				w.ongBalance(last[0].Address), fundA, w.ongBalance(last[1].Address), fundB))
+		}
+	}
+	p := w.ready[0]
+	w.ready = w.ready[1:]
+	return p
 }
 
 var xpW *xpWorld
@@ -189,7 +220,7 @@ func xpErrName(e errors.ErrCode) string {
 	case errors.ErrVerifySignature:
 		return "badsig"
 	case errors.ErrDuplicatedTx:
-		return "onchain"
+		return "duptx"
 	case errors.ErrGasPrice:
 		return "gasprice"
 	case errors.ErrDoubleSpend:
@@ -210,24 +241,22 @@ func xpErrName(e errors.ErrCode) string {
 //   t6   payer B: small transfer
 // gas prices are distinct (t1 > t2 > t3 > t4 > t6): GetTxPool's order by fee is deterministic.
 func xpNewScn(w *xpWorld, h0 int, maxTx int, preExec bool) *xpScn {
+	return xpNewScnOpt(w, h0, maxTx, preExec, true)
+}
+
+// takeOver: the harness replaces the server's response loop (replay); otherwise the server runs on its own (traces)
+func xpNewScnOpt(w *xpWorld, h0 int, maxTx int, preExec bool, takeOver bool) *xpScn {
 	sc := &xpScn{w: w, h0: h0, txs: map[string]*types.Transaction{}, hname: map[common.Uint256]string{},
 		vname: map[*types.Transaction]string{}, hashOf: map[string]string{},
 		slBag: map[string][]*vt.CheckResponse{}, sfCount: map[string]int{}, sfCache: map[string]map[uint32]*vt.CheckResponse{}}
-	a, b := account.NewAccount(""), account.NewAccount("")
 	var sink common.Address
 	copy(sink[:], []byte("x02-sink-address-000"))
-	price := map[string]uint64{"t1": xpGasPrice + 6, "t2": xpGasPrice + 5, "t3": xpGasPrice + 4, "t4": xpGasPrice + 3, "t6": xpGasPrice + 2, "t5": 100}
-	v := uint64(1000000000)
-	fundA := v + price["t1"]*xpGasLimit + xpDrainKeep
-	fundB := uint64(50) * 1000000000
+	price := xpPrices
+	v := xpDrainAmount
+	pair := w.payers()
+	a, b := pair[0], pair[1]
 	w.nonce += 16
 	n := w.nonce
-	w.saveBlock([]*types.Transaction{
-		w.mkTransfer(w.gacc, a.Address, fundA, 0, n, false),
-		w.mkTransfer(w.gacc, b.Address, fundB, 0, n+1, false)})
-	if w.ongBalance(a.Address) != fundA || w.ongBalance(b.Address) != fundB {
-		panic(fmt.Sprintf("funding block did not execute as expected: A=%d (want %d) B=%d (want %d)", w.ongBalance(a.Address), fundA, w.ongBalance(b.Address), fundB))
-	}
 	sc.base = w.height()
 	add := func(name, hashName string, t *types.Transaction) {
 		sc.txs[name] = t
@@ -252,7 +281,9 @@ func xpNewScn(w *xpWorld, h0 int, maxTx int, preExec bool) *xpScn {
 	s := NewTxPoolServer(!preExec, true)
 	// take over the response loop: start() returns when it receives from stopCh (unbuffered: the send
 	// completes only when start() has taken it), after that nobody but the harness reads rspCh
-	s.stopCh <- true
+	if takeOver {
+		s.stopCh <- true
+	}
 	sc.s = s
 	sc.svc = NewTxPoolService(s)
 	sc.vbCh = make(chan *tc.VerifyBlockRsp, 8)
@@ -261,7 +292,9 @@ func xpNewScn(w *xpWorld, h0 int, maxTx int, preExec bool) *xpScn {
 			sc.vbCh <- rsp
 		}
 	}))
-	sc.refreshSfCache()
+	if takeOver {
+		sc.refreshSfCache()
+	}
 	return sc
 }
 
